@@ -185,7 +185,7 @@ def summary(setmap: defaultdict[str, int], stream: TextIO = sys.stdout):
     total = sum(setmap.values())
     data = []
     total_count = 0
-    for pset in sorted(setmap.keys(), key=len):
+    for pset in sorted(setmap.keys(), key=lambda s: (len(s), sorted(s))):
         name = "{" + ", ".join(sorted(pset)) + "}"
         count = setmap[pset]
         if total == 0:
@@ -348,6 +348,7 @@ def find_duplicates(codebase: CodeBase) -> list[set[Path]]:
             if len(matches) > 1:
                 confirmed_matches.append(matches)
 
+    confirmed_matches.sort(key=sorted)
     return confirmed_matches
 
 
@@ -374,7 +375,7 @@ def duplicates(codebase: CodeBase, stream: TextIO = sys.stdout):
 
     for i, matches in enumerate(confirmed_matches):
         print(f"Match {i}:", file=stream)
-        for path in matches:
+        for path in sorted(matches):
             print(f"- {path}")
         if i != len(confirmed_matches) - 1:
             print("")
